@@ -294,6 +294,13 @@ def run(ctx, host=None):
     else:
         chk.bad(R3, REPACK, norm(loop.iter)[:100], f'the copy loop does not iterate exactly the rows of this pack in offset order (where={info["where"]}, order_by={info["order_by"]})', where=f'{rp.module.relpath}:{loop.lineno}')
     por = [c for c in ast.walk(loop) if isinstance(c, ast.Call) and norm(c.func) == 'PackedObjectReader']
+    if len(por) == 1 and len(por[0].args) < 3 and por[0].keywords:
+        # PackedObjectReader(fhandle=..., offset=..., length=...): read the three arguments by name
+        kwn = {k.arg: k.value for k in por[0].keywords}
+        full = list(por[0].args) + [kwn.get(nm) for nm in ('fhandle', 'offset', 'length')[len(por[0].args):]]
+        if all(x is not None for x in full):
+            por[0].args = full
+            por[0].keywords = [k for k in por[0].keywords if k.arg not in ('fhandle', 'offset', 'length')]
     okpor = len(por) == 1 and len(por[0].args) == 3 and len(tvars) == len(cols)
     if okpor:
         o, l = por[0].args[1], por[0].args[2]
